@@ -175,7 +175,7 @@ func callGraphJSON(ast *syntax.Ast) string {
 	return strings.ReplaceAll(strings.ReplaceAll(t, "\\n", ""), " ", "")
 }
 
-var locRe = regexp.MustCompile(`(at|\[\d+\]) [^ "\\]*\.mro:\d+( included from:)?`)
+var locRe = regexp.MustCompile(`((at|\[\d+\]|included from) )?[^ "\\]*\.mro:\d+( included from:?)?`)
 
 var fieldRe = regexp.MustCompile(`([A-Za-z]+)=[^=;]*$`)
 
